@@ -97,6 +97,7 @@ fn check(id: &str, tier: &str) -> i32 {
     let traces = if acc.traces > 0 { acc.traces } else { acc.evals };
     let nontriv = if !acc.nontrivial_set.is_empty() { acc.nontrivial_set.len() as u64 } else { acc.nontrivial };
     let mut samples: Vec<Json> = acc.samples.iter().take(6).map(Json::s).collect();
+    if samples.is_empty() { if let Some(f) = &acc.fallback { samples.push(Json::s(f)); } }
     if samples.is_empty() { samples.push(Json::s("(engine recorded no sample)")); machinery.push("engine recorded no sample".into()); }
     let mut cov = vec![
         ("states".to_string(), Json::i(states)),
